@@ -134,25 +134,36 @@ func ConvertRecordValueToJsonStructure(pathes []PathExpression, row []value.Prim
 		return nil, errors.New("field length does not match")
 	}
 
+	var err error
 	for i, path := range pathes {
-		structure = addPathValueToRowStructure(structure, path.(ObjectPath), row[i], fieldLen)
+		structure, err = addPathValueToRowStructure(structure, path.(ObjectPath), row[i], fieldLen)
+		if err != nil {
+			return nil, err
+		}
 	}
 
 	return structure, nil
 }
 
-func addPathValueToRowStructure(parent json.Structure, path ObjectPath, val value.Primary, fieldLen int) json.Structure {
+func addPathValueToRowStructure(parent json.Structure, path ObjectPath, val value.Primary, fieldLen int) (json.Structure, error) {
 	var obj json.Object
 	if parent == nil {
 		obj = json.NewObject(fieldLen)
 	} else {
-		obj = parent.(json.Object)
+		var ok bool
+		if obj, ok = parent.(json.Object); !ok {
+			// e.g. the fields "a" and "a.b": "a" cannot hold a value and an object at the same time
+			return nil, errors.New(fmt.Sprintf("json path %s conflicts with another field", path.Name))
+		}
 	}
 
 	if path.Child == nil {
 		obj.Add(path.Name, ParseValueToStructure(val))
 	} else {
-		valueStructure := addPathValueToRowStructure(obj.Value(path.Name), path.Child.(ObjectPath), val, fieldLen)
+		valueStructure, err := addPathValueToRowStructure(obj.Value(path.Name), path.Child.(ObjectPath), val, fieldLen)
+		if err != nil {
+			return nil, err
+		}
 		if obj.Exists(path.Name) {
 			obj.Update(path.Name, valueStructure)
 		} else {
@@ -160,7 +171,7 @@ func addPathValueToRowStructure(parent json.Structure, path ObjectPath, val valu
 		}
 	}
 
-	return obj
+	return obj, nil
 }
 
 func ParseValueToStructure(val value.Primary) json.Structure {
